@@ -146,6 +146,14 @@ func serve(dir string, portBase int, eng string, out *os.File) {
 				reply = "ok"
 			}
 		case "O": // O <prefix> <k>  -> synced map of c1..ck ; journal length
+			// ApplyRaftReqs is answered when the state machine triggers the batch's request id, which happens inside
+			// ApplyRaftRequest, i.e. BEFORE applyEntry calls postprocessRemoteApply: right after a successful call
+			// GetSyncedRaft can still return the previous position (data applied, position not yet recorded).
+			// Observe only when the apply loop has finished everything that is committed.
+			commit := n.Node.GetRaftStatus().Commit
+			for w := 0; w < 5000 && n.Node.GetAppliedIndex() < commit; w++ {
+				time.Sleep(time.Millisecond)
+			}
 			pre := f[1]
 			k := int(atoiU(f[2]))
 			var parts []string
